@@ -334,6 +334,13 @@ def run(prog, chk):
     if lenient_lookup_rule(prog, m, r7) < 2:
         raise Broken("fewer than 2 look-up functions for leniently created containers found")
 
+    r8 = chk.rule("R8-name-length-limit", "cif_is_valid_name counts characters (code points) and accepts exactly up to the line "
+                  "length for data names, line length - 5 for block / frame codes: every name the data model allows can be "
+                  "created and found again (shared with C09 R8)", primary=False, floor=2)
+    from . import c09
+    if c09.name_length_limit(prog, r8) < 2:
+        raise Broken("cif_is_valid_name: no length comparison of the name found")
+
     r6 = chk.rule("R6-null-category-is-not-scalar", "every decision whether a loop category is the scalar category \"\" answers no for "
                   "a NULL category (no category): by the boolean structure of the test, or because the test is only reached "
                   "where the category was found non-NULL", primary=False, floor=3)
